@@ -318,6 +318,7 @@ const pushCloseGuard = 5 * time.Second
 
 func (w *world) afterEnd(i, incStart int, before recSnapshot, fsMark int) *pbt.Violation {
 	in := w.c.Incs[i]
+	viaRtsp := in.Input == "rtsp"
 	who := fmt.Sprintf("incarnation %d (%s, %s input, %d messages, ended by %s)", i, shape(in.Codecs), in.Input, len(w.P)-incStart, in.End)
 
 	// hook: one stop per start
@@ -356,6 +357,15 @@ func (w *world) afterEnd(i, incStart int, before recSnapshot, fsMark int) *pbt.V
 			return pbt.V("record-flv/unparseable", "%s: %s (%d bytes) does not parse completely: %v (%d tags before the error)", who, filepath.Base(path), len(b), err, len(recs))
 		}
 		want := w.P[incStart:]
+		if viaRtsp {
+			// the RTSP input reaches the recording through lal's RTP -> RTMP remuxer (own sequence headers, A/V
+			// interleave queue): judged on content — units of this incarnation only, none twice
+			if v := w.judgeRecords(recs, who+": the FLV recording", "record-flv", i, i); v != nil {
+				return v
+			}
+			want = nil
+			recs = nil
+		}
 		for k := 0; k < len(want) || k < len(recs); k++ {
 			if k >= len(recs) {
 				return pbt.V("record-flv/incomplete", "%s: the FLV recording holds %d tags, %d messages were published; first missing: %s %s", who, len(recs), len(want), want[k].kind, want[k].rec)
@@ -383,6 +393,9 @@ func (w *world) afterEnd(i, incStart int, before recSnapshot, fsMark int) *pbt.V
 		tc, err := demuxTs(b)
 		if err != nil {
 			return pbt.V("record-ts/unparseable", "%s: %s (%d bytes) does not parse completely: %v", who, filepath.Base(path), len(b), err)
+		}
+		if viaRtsp {
+			aNeed, vNeed = nil, nil // completeness is not due for an RTSP input (A/V interleave queue)
 		}
 		if k, miss := firstMissing(tc.audio, aNeed); miss {
 			return pbt.V("record-ts/audio-missing", "%s: the TS recording (%d packets, %d audio PES bytes) lacks the %s — %d of %d audio frames are present in order before it%s", who, len(tc.res.Packets), len(tc.audio), aNeed[k].what, k, len(aNeed), pendingNote(in))
@@ -420,7 +433,7 @@ func (w *world) afterEnd(i, incStart int, before recSnapshot, fsMark int) *pbt.V
 
 	// HTTP-TS consumers that are still attached (lal keeps them when the input was closed or kicked): the final audio
 	// flush reaches them
-	if in.End == "close" || in.End == "kick" {
+	if (in.End == "close" || in.End == "kick") && !viaRtsp {
 		for _, a := range w.cons {
 			if a.gone || a.ts == nil {
 				continue
@@ -516,8 +529,9 @@ func (w *world) hlsAfterEnd(i, incStart, fsMark int, who string, vNeed, aNeed []
 	} else {
 		expectSeg = len(aNeed) > 0
 	}
+	viaRtsp := in.Input == "rtsp"
 	if len(segs) == 0 {
-		if expectSeg {
+		if expectSeg && !viaRtsp {
 			return pbt.V("hls/no-segment", "%s: HLS produced no segment at all although the input published %d video frames (first key frame at published index %d) and %d TS-carried audio frames%s", who, countKind(w.P[incStart:], "video"), firstKey, len(aNeed), pendingNote(in))
 		}
 		return nil
@@ -575,7 +589,9 @@ func (w *world) hlsAfterEnd(i, incStart, fsMark int, who string, vNeed, aNeed []
 	// tail completeness: everything published after the first segment was opened is in the segments.  The lower bound
 	// for "opened" used here: the first key frame (stream with video) / the first audio frame (stream without).
 	var aTail, vTail []needle
-	if in.Codecs.Video != "" {
+	if viaRtsp {
+		// completeness is not due for an RTSP input
+	} else if in.Codecs.Video != "" {
 		for _, n := range aNeed {
 			if n.idx > firstKey {
 				aTail = append(aTail, n)
@@ -670,32 +686,236 @@ func (w *world) tsPendingAudio(a *attached, i, incStart int, who string, aNeed [
 // ---------------------------------------------------------------------------
 // consumers
 
-// checkMsgConsumer judges an RTMP / HTTP-FLV consumer: every record is a
-// published message of an incarnation that was live (or still to come) when it
-// joined, and incarnations never go backwards.
-func (w *world) checkMsgConsumer(a *attached, recs []lalclient.Rec) *pbt.Violation {
-	who := fmt.Sprintf("consumer %d (%s, joined incarnation %d at %d = published index %d, stay=%v)", a.idx, a.spec.Kind, a.spec.Inc, a.spec.JoinAt, a.j, a.spec.Stay)
-	curInc := -1
-	for n, r := range recs {
-		inc := -1
-		for _, pm := range w.P {
-			if eq(pm.rec, r) {
-				inc = pm.inc
-				break
+// attr is what one record carries: a unit (key != "") or a header of an
+// incarnation.
+type attr struct {
+	inc  int
+	key  string
+	what string
+}
+
+// psOwners: which incarnations use parameter set / AAC config b.
+func (w *world) psOwner(pps bool, b []byte) (incs []int, known bool) {
+	for i, in := range w.c.Incs {
+		cd := in.Codecs
+		if cd.Video == "" {
+			continue
+		}
+		vps, sps, p := gen.ParamSets(cd.Video, incVariant(in))
+		if pps {
+			if bytes.Equal(b, p) {
+				incs = append(incs, i)
+				known = true
+			}
+		} else if bytes.Equal(b, sps) || (vps != nil && bytes.Equal(b, vps)) {
+			known = true
+		}
+	}
+	return
+}
+
+func splitAvcc(b []byte) ([][]byte, bool) {
+	var out [][]byte
+	for len(b) > 0 {
+		if len(b) < 4 {
+			return nil, false
+		}
+		n := int(b[0])<<24 | int(b[1])<<16 | int(b[2])<<8 | int(b[3])
+		b = b[4:]
+		if n > len(b) {
+			return nil, false
+		}
+		out = append(out, b[:n])
+		b = b[n:]
+	}
+	return out, true
+}
+
+// attribute says which incarnation(s) a received / recorded message belongs to
+// and which elementary units it carries.  Messages of an RTMP-type incarnation
+// are relayed verbatim; those of an RTSP incarnation are built by lal's
+// RTP -> RTMP remuxer and are recognised by their content.
+func (w *world) attribute(r lalclient.Rec) (out []attr, unknown string) {
+	// verbatim headers / metadata of an RTMP-type incarnation
+	for x, pm := range w.P {
+		if (pm.kind == "meta" || pm.kind == "vsh" || pm.kind == "ash") && eq(pm.rec, r) {
+			return []attr{{inc: pm.inc, what: fmt.Sprintf("%s of incarnation %d (published index %d)", pm.kind, pm.inc, x)}}, ""
+		}
+	}
+	pl := r.Payload
+	switch r.Type {
+	case gen.TypeData:
+		return nil, "" // metadata generated by lal itself (RTSP input): belongs to no incarnation's content
+	case gen.TypeAudio:
+		if len(pl) < 2 {
+			return nil, "audio message shorter than its header"
+		}
+		if pl[0]>>4 == 10 {
+			if pl[1] == 0 {
+				for i, in := range w.c.Incs {
+					cd := in.Codecs
+					if cd.Audio == "aac" && bytes.Equal(pl[2:], gen.Asc(cd.AscObj, cd.AscFreq, cd.AscChan)) {
+						out = append(out, attr{inc: i, what: fmt.Sprintf("AAC sequence header of incarnation %d", i)})
+					}
+				}
+				if len(out) == 0 {
+					return nil, "AAC sequence header with a config no incarnation uses"
+				}
+				return out, ""
+			}
+			if ref, ok := w.units[string(pl[2:])]; ok {
+				return []attr{{inc: ref.inc, key: string(pl[2:]), what: ref.what}}, ""
+			}
+			return nil, "AAC frame that was never published"
+		}
+		if ref, ok := w.units[string(pl[1:])]; ok {
+			return []attr{{inc: ref.inc, key: string(pl[1:]), what: ref.what}}, ""
+		}
+		return nil, "audio frame that was never published"
+	case gen.TypeVideo:
+		if len(pl) < 5 {
+			return nil, "video message shorter than its header"
+		}
+		enhanced := pl[0]&0x80 != 0
+		codec := "avc"
+		if enhanced || pl[0]&0x0f == 12 {
+			codec = "hevc"
+		}
+		seqHdr := (!enhanced && pl[1] == 0) || (enhanced && pl[0]&0x0f == 0)
+		if seqHdr {
+			// built by lal from the RTSP session description: recognised by the PPS it carries
+			for i, in := range w.c.Incs {
+				if in.Codecs.Video != codec {
+					continue
+				}
+				_, _, pps := gen.ParamSets(codec, incVariant(in))
+				if bytes.Contains(pl, pps) {
+					out = append(out, attr{inc: i, what: fmt.Sprintf("video sequence header with the parameter sets of incarnation %d", i)})
+				}
+			}
+			if len(out) == 0 {
+				return nil, "video sequence header with parameter sets no incarnation uses"
+			}
+			return out, ""
+		}
+		off := 5
+		if enhanced {
+			switch pl[0] & 0x0f {
+			case 1:
+				off = 8
+			case 3:
+				off = 5
+			default:
+				return nil, "enhanced video message of an unexpected packet type"
 			}
 		}
-		if inc < 0 {
-			return pbt.V("unknown-record/"+a.spec.Kind, "%s: record %d %s equals no published message", who, n, r)
+		if len(pl) < off {
+			return nil, "video message shorter than its header"
 		}
-		if inc < a.minInc {
-			return pbt.V("inherited/"+a.spec.Kind, "%s: record %d %s is a message of incarnation %d, whose input had left before the consumer joined (%s)", who, n, r, inc, w.describe(r))
+		nals, ok := splitAvcc(pl[off:])
+		if !ok {
+			return nil, "video message whose NAL unit lengths do not add up"
 		}
-		if inc < curInc {
-			return pbt.V("inherited/"+a.spec.Kind, "%s: record %d %s is a message of incarnation %d, received after messages of incarnation %d (%s)", who, n, r, inc, curInc, w.describe(r))
+		for _, n := range nals {
+			if ref, ok := w.units[string(n)]; ok {
+				out = append(out, attr{inc: ref.inc, key: string(n), what: ref.what})
+				continue
+			}
+			if ps, isPps := isParamSet(codec, n); ps {
+				incs, known := w.psOwner(isPps, n)
+				if !known {
+					return nil, fmt.Sprintf("in-band parameter set %x no incarnation uses", n)
+				}
+				for _, i := range incs {
+					out = append(out, attr{inc: i, what: fmt.Sprintf("in-band PPS of incarnation %d", i)})
+				}
+				continue
+			}
+			if isNeutralNal(codec, n) {
+				continue
+			}
+			hd := n
+			if len(hd) > 12 {
+				hd = hd[:12]
+			}
+			return nil, fmt.Sprintf("NAL unit (%d bytes, % x..) that was never published", len(n), hd)
 		}
-		curInc = inc
+		return out, ""
+	}
+	return nil, fmt.Sprintf("message of type %d", r.Type)
+}
+
+// judgeRecords: every record belongs to an incarnation >= minInc (exactInc >= 0:
+// to exactly that one), incarnations never go backwards, and no elementary unit
+// arrives twice.  A header that several incarnations share (same AAC config)
+// counts for the most favourable one.
+func (w *world) judgeRecords(recs []lalclient.Rec, who, kind string, minInc, exactInc int) *pbt.Violation {
+	curInc := -1
+	seen := map[string]int{}
+	for n, r := range recs {
+		as, unknown := w.attribute(r)
+		if unknown != "" {
+			return pbt.V("unknown-record/"+kind, "%s: record %d %s: %s", who, n, r, unknown)
+		}
+		// group alternatives of a header; units are unambiguous
+		best := -1
+		for _, a := range as {
+			if a.key != "" {
+				continue
+			}
+			if a.inc >= minInc && a.inc >= curInc && (exactInc < 0 || a.inc == exactInc) && (best < 0 || a.inc < best) {
+				best = a.inc
+			}
+		}
+		hasHdr := false
+		var hdr attr
+		for _, a := range as {
+			if a.key == "" {
+				hasHdr, hdr = true, a
+			}
+		}
+		if hasHdr && best < 0 {
+			if hdr.inc < minInc {
+				return pbt.V("inherited/"+kind, "%s: record %d %s is the %s, whose input had left before (the consumer may only see incarnation %d or later)", who, n, r, hdr.what, minInc)
+			}
+			if exactInc >= 0 && hdr.inc != exactInc {
+				return pbt.V("inherited/"+kind, "%s: record %d %s is the %s, not of incarnation %d", who, n, r, hdr.what, exactInc)
+			}
+			return pbt.V("inherited/"+kind, "%s: record %d %s is the %s, received after messages of incarnation %d", who, n, r, hdr.what, curInc)
+		}
+		if best > curInc {
+			curInc = best
+		}
+		for _, a := range as {
+			if a.key == "" {
+				continue
+			}
+			if a.inc < minInc {
+				return pbt.V("inherited/"+kind, "%s: record %d %s carries the %s, whose input had left before (the consumer may only see incarnation %d or later)", who, n, r, a.what, minInc)
+			}
+			if exactInc >= 0 && a.inc != exactInc {
+				return pbt.V("inherited/"+kind, "%s: record %d %s carries the %s, not a unit of incarnation %d", who, n, r, a.what, exactInc)
+			}
+			if a.inc < curInc {
+				return pbt.V("inherited/"+kind, "%s: record %d %s carries the %s, received after messages of incarnation %d", who, n, r, a.what, curInc)
+			}
+			curInc = a.inc
+			if first, dup := seen[a.key]; dup {
+				return pbt.V("duplicate/"+kind, "%s: record %d %s carries the %s a second time (first in record %d)", who, n, r, a.what, first)
+			}
+			seen[a.key] = n
+		}
 	}
 	return nil
+}
+
+// checkMsgConsumer judges an RTMP / HTTP-FLV consumer: every record is a
+// message (or, for an RTSP input, carries units) of an incarnation that was live
+// or still to come when it joined, incarnations never go backwards, no unit
+// arrives twice.
+func (w *world) checkMsgConsumer(a *attached, recs []lalclient.Rec) *pbt.Violation {
+	who := fmt.Sprintf("consumer %d (%s, joined incarnation %d at %d = published index %d, stay=%v)", a.idx, a.spec.Kind, a.spec.Inc, a.spec.JoinAt, a.j, a.spec.Stay)
+	return w.judgeRecords(recs, who, a.spec.Kind, a.minInc, -1)
 }
 
 func (w *world) describe(r lalclient.Rec) string {
@@ -777,12 +997,12 @@ func (w *world) latePushes(i int, who string) *pbt.Violation {
 			case <-time.After(2 * time.Millisecond):
 			}
 			// corroboration by lal's own state: a push session registered on a group that has no input
-			if g != nil && !g.HasInSession() && g.OutSessionNum() > w.attachedSubs() {
+			if g != nil && !g.HasInSession() && g.OutSessionNum() > w.attachedSubsMax() {
 				if registeredSince.IsZero() {
 					registeredSince = time.Now()
 				}
 				if time.Since(registeredSince) > 2*time.Second {
-					return pbt.V("push/late-session-not-closed", "%s: push target %d answered the RTMP handshake after the input had left; lal completed the publish and has kept the push session registered on the input-less group for %v (in=%v, out sessions=%d, subscribers=%d) instead of closing it", who, li, time.Since(registeredSince).Round(time.Millisecond), g.HasInSession(), g.OutSessionNum(), w.attachedSubs())
+					return pbt.V("push/late-session-not-closed", "%s: push target %d answered the RTMP handshake after the input had left; lal completed the publish and has kept the push session registered on the input-less group for %v (in=%v, out sessions=%d, subscribers=%d) instead of closing it", who, li, time.Since(registeredSince).Round(time.Millisecond), g.HasInSession(), g.OutSessionNum(), w.attachedSubsMax())
 				}
 			} else {
 				registeredSince = time.Time{}
